@@ -18,7 +18,8 @@ def motif_edges(kind, vs):
 
 
 @st.composite
-def clean_network(draw, maxN=40, minN=6, max_motifs=60, topo_pool=None, min_topos=1, max_topos=3, name_style=None):
+def clean_network(draw, maxN=40, minN=6, max_motifs=60, topo_pool=None, min_topos=1, max_topos=3, name_style=None,
+                  min_motifs=1, min_rounds=1):
     pool = topo_pool or [("clique", 2), ("clique", 3), ("clique", 4), ("cycle", 4), ("cycle", 5)]
     T = draw(st.integers(min_topos, max_topos))
     chosen = draw(st.lists(st.sampled_from(pool), min_size=T, max_size=T, unique=True))
@@ -28,18 +29,39 @@ def clean_network(draw, maxN=40, minN=6, max_motifs=60, topo_pool=None, min_topo
         name = f"{s}-{k}" if style == "plain" else f"{s}-{k}-blue#{i}"
         topos.append({"kind": k, "size": s, "name": name})
     N = draw(st.integers(max(minN, max(s for _, s in chosen)), maxN))
-    nm = draw(st.integers(1, max_motifs))
     used = set()
     motifs = []
-    for _ in range(nm):
-        ti = draw(st.integers(0, T - 1))
-        s = topos[ti]["size"]
-        vs = draw(st.lists(st.integers(0, N - 1), min_size=s, max_size=s, unique=True))
-        es = {frozenset(e) for e in motif_edges(topos[ti]["kind"], vs)}
-        if es & used:
-            continue
-        used |= es
-        motifs.append([ti, vs])
+    # rounds: in each round a random permutation of the vertices is cut into consecutive blocks, one motif per
+    # block (vertex-disjoint within a round); later rounds overlap earlier ones in vertices, never in edges
+    # (a block that would reuse an edge is dropped).  Gives many motifs and heterogeneous joint degrees.
+    rounds = draw(st.integers(min_rounds, 4))
+    import random as _random
+    pseed = draw(st.integers(0, 2 ** 20))
+    rnd = -1
+    while rnd + 1 < rounds or (len(motifs) < min_motifs and rnd < 8):
+        rnd += 1
+        # vertex order of this round: a deterministic expansion of one drawn integer (reproducible from the case;
+        # avoids the highly regular networks that identity permutations give, on which no swap can change anything)
+        perm = list(range(N))
+        _random.Random(pseed * 7 + rnd).shuffle(perm)
+        pos = 0
+        # later rounds cover only part of the vertices, so joint degrees are heterogeneous even for the
+        # simplest draws (needed for any rewiring swap to change the mixing)
+        reach = N if rnd == 0 else min(N, N // (rnd + 1) + draw(st.integers(0, N)))
+        while len(motifs) < max_motifs:
+            ti = draw(st.integers(0, T - 1))
+            s = topos[ti]["size"]
+            if pos + s > reach:
+                break
+            vs = perm[pos:pos + s]
+            pos += s
+            if len(motifs) >= min_motifs and draw(st.integers(0, 4)) == 4:
+                continue  # leave these vertices out of this round
+            es = {frozenset(e) for e in motif_edges(topos[ti]["kind"], vs)}
+            if es & used:
+                continue
+            used |= es
+            motifs.append([ti, vs])
     return {"N": N, "topos": topos, "motifs": motifs}
 
 
